@@ -4615,7 +4615,13 @@ func containersSayThemselvesWhetherTheyAreEmpty(c *core.Ctx) {
 			continue
 		}
 		ms := types.NewMethodSet(types.NewPointer(nt))
-		if ms.Lookup(op.Types, "Len") == nil {
+		lenSel := ms.Lookup(op.Types, "Len")
+		if lenSel == nil {
+			continue
+		}
+		// the length of a container, as the script's len() asks for it: Len() *Int
+		// (a Go-side helper `Len() int`, say of a channel's buffer, is not that)
+		if sig, ok := lenSel.Type().(*types.Signature); !ok || sig.Results().Len() != 1 || !core.IsNamed(sig.Results().At(0).Type(), pkgPath("object"), "Int") {
 			continue
 		}
 		n++
